@@ -61,6 +61,11 @@ def build(template, names, option, raising):
         plain = ns["C"].f
     else:
         plain = ns["f"]
+    if STACKED[0] and not is_method:
+        # log_call stacked on another decorator built with functools.wraps that supplies the first
+        # argument itself: the function being decorated really takes (*args, **kwargs), while its
+        # __wrapped__ attribute advertises the inner function's signature
+        plain = _supplies_first_argument(plain)
     if option == 0:
         deco = log_call(plain)
     elif option == 1:
@@ -78,6 +83,19 @@ def build(template, names, option, raising):
         none(_earlier_function)
         deco = none(plain)
     return plain, deco, is_method, src_header
+
+
+STACKED = [False]
+
+
+def _supplies_first_argument(f):
+    import functools
+
+    @functools.wraps(f)
+    def inner(*args, **kwargs):
+        return f("supplied", *args, **kwargs)
+
+    return inner
 
 
 def _earlier_function(*args, **kwargs):
@@ -114,6 +132,7 @@ def body_E1(ctx):
     sh = ctx.shard
     received = []
     Logger._destinations.add(received.append)
+    STACKED[0] = bool(sh.get("stacked"))
     template = TEMPLATES[ctx.choose(len(TEMPLATES), "template")]
     n = template[2]
     pool = list(NAMES)
@@ -168,7 +187,7 @@ def body_E1(ctx):
             exp_type = "custom:type" if option == 1 else "%s.%s" % (plain.__module__, plain.__qualname__)
             if not (set(names) & {"action_type"}):
                 ctx.check(st["action_type"] == exp_type, "action type %r, expected %r", st["action_type"], exp_type)
-            bound = inspect.signature(plain).bind(*args_p, **kwargs)
+            bound = inspect.signature(plain, follow_wrapped=False).bind(*args_p, **kwargs)
             bound.apply_defaults()
             expected = dict(bound.arguments)
             expected.pop("self", None)
@@ -273,7 +292,7 @@ def L1(x: int, y: int, z: int, w: int) -> bool:
 
 def _shards(tier):
     out = []
-    cfgs = [{"free_slot": 0}, {"free_slot": 1}] if tier == "quick" else [{}]
+    cfgs = [{"free_slot": 0}, {"free_slot": 1}, {"free_slot": 5, "stacked": 1}] if tier == "quick" else [{}, {"free_slot": 0, "stacked": 1}]
     for base in cfgs:
         out += [dict(base, prefix=p) for p in enumerate_prefixes(body_E1, "X", {}, base, 2 if tier == "quick" else 3)]
     return out
